@@ -464,7 +464,7 @@ class C04(core.PropertyCheck):
                     v["driver_error"] = r["error"]
                 else:
                     v.update(ok=r["ok"], ok_strict=r["ok_strict"], path=r["path"], why=r["why"],
-                             undestined=r["undestined"], unpinned=r["unpinned"])
+                             undestined=r["undestined"], undestined_body=r.get("undestined_body", r["undestined"]), unpinned=r["unpinned"])
                 collect_types(p["ast"], types)
             verdicts.append(v)
         err_lines = sorted({d[2] for d in all_diags if str(d[1]).lower() in ERROR_LEVELS and isinstance(d[2], int)})
@@ -548,9 +548,11 @@ class C04(core.PropertyCheck):
                 for line in v["undestined"]:
                     if line not in impl["error_lines"]:
                         return f"ref_role without destination and without error diagnostic on its line {line} [{where}]"
+                # every unresolved reference of a page BODY needs its OWN error diagnostic: one reported for another page
+                # (or another inclusion of the same file) at the same line number does not excuse this one. Copies of a
+                # heading in the root's options (ia / toc titles) share the diagnostic of the heading they were copied from.
+                for line in v.get("undestined_body", v["undestined"]):
                     und_total[line] = und_total.get(line, 0) + 1
-                    # every unresolved reference needs its OWN error diagnostic: one reported for another page (or
-                    # another inclusion of the same file) at the same line number does not excuse this one
                     if und_total[line] > impl.get("error_count", {}).get(str(line), 0):
                         return f"more ref_roles without destination on line {line} than error diagnostics on that line in the whole build [{where}]"
         if impl.get("metadata_bson_exc"):
